@@ -1,9 +1,11 @@
 PROPERTY = "C12"
 ENTRY = {
-        "text": "RateLimit.tla (failed-attempt table, written from the statement; 2 addresses, limit 1..3, block 1..3 ticks, minute = 2 ticks) and "
-                "Auth.tla (sessions in memory + file, login/request/logout/clock/restart; 3 token names, TTL 1..3 ticks) are explored by TLC "
+        "text": "RateLimit.tla (failed-attempt table, written from the statement; 2 peer addresses, each request may claim another origin in a forwarding header -- "
+                "none / another client / inside / outside the trusted-proxy set --, limit 1..3, block 1..3 ticks, minute = 2 ticks) and "
+                "Auth.tla (sessions in memory + file, login/request/clock/restart and logout as call/effect/return so that TLC explores requests racing a logout; 3 token names, TTL 1..3 ticks) are explored by TLC "
                 "exhaustively modulo time translation (no bound on history length) with the statement's properties as invariants / action properties; "
-                "the same runs emit every labelled edge (about 5.6e3) and the Go harness walks all of them, under the synctest virtual clock, against the real "
+                "the same runs emit every labelled edge (about 1.4e4 after composing logout and logout||request outcomes) and the Go harness walks all of them, under the synctest virtual clock, "
+                "with races forced by parking both requests on the sessions mutex or the database write transaction, against the real "
                 "POST /control/login handler, a protected route behind the real optionalAuth, the real logout handler and a real sessions.db "
                 "(restart = close and reopen), comparing reply and projected state after every step; seeded random timed histories with production "
                 "parameters (5 attempts / 15 min / 30 days) and other parameter values are recorded and validated line by line by TraceRateLimit.tla / TraceAuth.tla.",
